@@ -288,3 +288,205 @@ Proof.
   intros Ha. destruct (fold_wrap_add w l acc) as [H| ->]; [exact H|].
   cbn. rewrite Z.add_0_r, wrap_small; auto.
 Qed.
+
+(* ====================================================================== *)
+(* normalisation of integer kernels: the tie lemmas are closed by [go_arith], *)
+(* which does not depend on how the Go source spells an operation            *)
+(* (x<<k / x*2^k, x>>k / x/2^k, x&(2^k-1) / x%2^k, x&^m / x&^(m), | / + on  *)
+(* disjoint fields, the order of modular additions)                          *)
+(* ====================================================================== *)
+
+(* whatever the kernel returns, as an outcome: a tie stated with [go_out] does not depend on
+   whether the transcription needed run-time checks (the result type of the generated definition
+   is [T] or [outcome T] accordingly) *)
+Class GoOut (T R : Type) := go_out : T -> outcome R.
+#[global] Instance go_out_m {R} : GoOut (outcome R) R | 0 := fun x => x.
+#[global] Instance go_out_pure {R} : GoOut R R | 10 := fun x => Ok x.
+
+(* equal up to the numbering of the panic sites (the transcription numbers the run-time checks of a
+   function in source order, the hand-written models number them as they like) *)
+Definition outcome_agree {A} (x y : outcome A) : Prop :=
+  match x, y with
+  | Ok a, Ok b => a = b
+  | Err a, Err b => a = b
+  | Panic _, Panic _ => True
+  | Fuel, Fuel => True
+  | _, _ => False
+  end.
+
+Definition out_eqb (x y : outcome Z) : bool :=
+  match x, y with
+  | Ok a, Ok b => a =? b
+  | Err a, Err b => a =? b
+  | Panic _, Panic _ => true
+  | Fuel, Fuel => true
+  | _, _ => false
+  end.
+
+Lemma out_eqb_agree x y : out_eqb x y = true -> outcome_agree x y.
+Proof. destruct x, y; cbn; try discriminate; try lia; auto. Qed.
+
+Lemma out_eqb_ok x b : out_eqb x (Ok b) = true -> x = Ok b.
+Proof. destruct x; cbn; try discriminate. intros H. f_equal. lia. Qed.
+
+(* sweeps over one and two bytes *)
+Definition go_bytes256 : list Z := map Z.of_nat (seq 0 256).
+Lemma go_bytes256_in a : 0 <= a < 256 -> In a go_bytes256.
+Proof.
+  intros Ha. unfold go_bytes256. apply in_map_iff. exists (Z.to_nat a). split; [lia|]. apply in_seq. lia.
+Qed.
+Lemma go_sweep1 (P : Z -> bool) : forallb P go_bytes256 = true -> forall a, 0 <= a < 256 -> P a = true.
+Proof. intros H a Ha. rewrite forallb_forall in H. apply H, go_bytes256_in, Ha. Qed.
+Lemma go_sweep2 (P : Z -> Z -> bool) :
+  forallb (fun a => forallb (P a) go_bytes256) go_bytes256 = true ->
+  forall a b, 0 <= a < 256 -> 0 <= b < 256 -> P a b = true.
+Proof.
+  intros H a b Ha Hb. rewrite forallb_forall in H. specialize (H a (go_bytes256_in a Ha)).
+  rewrite forallb_forall in H. apply H, go_bytes256_in, Hb.
+Qed.
+
+Lemma lor_add_low k x l : 0 <= k -> x mod 2 ^ k = 0 -> 0 <= l < 2 ^ k -> Z.lor x l = x + l.
+Proof.
+  intros Hk Hx Hl.
+  assert (E : x = Z.shiftl (x / 2 ^ k) k).
+  { rewrite Z.shiftl_mul_pow2 by lia. pose proof (Z.div_mod x (2 ^ k) ltac:(lia)). lia. }
+  rewrite E at 1. rewrite lor_shiftl_add by lia.
+  pose proof (Z.div_mod x (2 ^ k) ltac:(lia)). lia.
+Qed.
+
+Lemma lor_add_low' k l x : 0 <= k -> x mod 2 ^ k = 0 -> 0 <= l < 2 ^ k -> Z.lor l x = l + x.
+Proof. intros. rewrite Z.lor_comm, (lor_add_low k) by auto. lia. Qed.
+
+Lemma ldiff_low_ones x k : 0 <= k -> Z.ldiff x (Z.ones k) = (x / 2 ^ k) * 2 ^ k.
+Proof. intros. rewrite Z.ldiff_ones_r, Z.shiftr_div_pow2, Z.shiftl_mul_pow2 by lia. reflexivity. Qed.
+
+(* x &^ y on an unsigned w-bit x is x & ^y *)
+Lemma ldiff_go_not w x y : 0 <= w -> 0 <= x < 2 ^ w -> Z.ldiff x y = Z.land x (go_not w y).
+Proof.
+  intros Hw Hx. unfold go_not, wrap. rewrite Z.ldiff_land.
+  rewrite <- (Z.land_ones (Z.lnot y) w) by lia.
+  rewrite (Z.land_comm (Z.lnot y)), Z.land_assoc.
+  rewrite (Z.land_ones x w) by lia. rewrite Z.mod_small by lia. reflexivity.
+Qed.
+
+Lemma mod_congr M a b k : a = b + k * M -> a mod M = b mod M.
+Proof.
+  intros ->. destruct (Z.eq_dec M 0) as [->|HM]; [rewrite Z.mul_0_r, Z.add_0_r; reflexivity|].
+  apply Z.mod_add; exact HM.
+Qed.
+
+Ltac go_zside := first [ timeout 5 lia | timeout 10 (Z.div_mod_to_equations; lia) ].
+Ltac go_zsolve :=
+  first [ lia
+        | Z.div_mod_to_equations; lia
+        | Z.div_mod_to_equations; nia ].
+
+(* a closed positive numeral *)
+Ltac go_is_num c := lazymatch c with Zpos ?p => idtac | Z0 => idtac end.
+
+(* x & c, c = 2^k - 1  ->  x mod 2^k;   x & c, c = 2^w - 2^k, 0 <= x < 2^w  ->  (x / 2^k) * 2^k;
+   x &^ c, c = 2^k - 1  ->  (x / 2^k) * 2^k *)
+Ltac go_mask_step :=
+  match goal with
+  | |- context [Z.land ?x ?c] =>
+      go_is_num c;
+      let k := eval vm_compute in (Z.log2 (c + 1)) in
+      let ok := eval vm_compute in ((2 ^ k =? c + 1) && (0 <? c)) in
+      lazymatch ok with true =>
+        replace (Z.land x c) with (x mod 2 ^ k) by (symmetry; apply (Z.land_ones x k); lia) end
+  | |- context [Z.land ?c ?x] =>
+      go_is_num c;
+      let k := eval vm_compute in (Z.log2 (c + 1)) in
+      let ok := eval vm_compute in ((2 ^ k =? c + 1) && (0 <? c)) in
+      lazymatch ok with true =>
+        replace (Z.land c x) with (x mod 2 ^ k) by (symmetry; rewrite Z.land_comm; apply (Z.land_ones x k); lia) end
+  | |- context [Z.ldiff ?x ?c] =>
+      go_is_num c;
+      let k := eval vm_compute in (Z.log2 (c + 1)) in
+      let ok := eval vm_compute in ((2 ^ k =? c + 1) && (0 <? c)) in
+      lazymatch ok with true =>
+        replace (Z.ldiff x c) with ((x / 2 ^ k) * 2 ^ k) by (symmetry; apply (ldiff_low_ones x k); lia) end
+  | |- context [Z.land ?x ?c] =>
+      go_is_num c;
+      let w := eval vm_compute in (Z.log2 c + 1) in
+      let k := eval vm_compute in (Z.log2 (2 ^ w - c)) in
+      let ok := eval vm_compute in ((2 ^ w - 2 ^ k =? c) && (0 <? c)) in
+      lazymatch ok with true =>
+        replace (Z.land x c) with ((x / 2 ^ k) * 2 ^ k)
+          by (symmetry; apply (land_clear_low_bits x k w); [lia | go_zside]) end
+  end.
+
+(* (x mod m) with 0 <= x < m -> x *)
+Ltac go_mod_small_step :=
+  match goal with
+  | |- context [?x mod ?m] => rewrite (Z.mod_small x m) by go_zside
+  end.
+
+(* x | y -> x + y when one side is a multiple of 2^k and the other is below 2^k *)
+Ltac go_lor_step :=
+  match goal with
+  | |- context [Z.lor ?x ?y] =>
+      first [ rewrite (lor_add_low 8 x y) by go_zside | rewrite (lor_add_low' 8 x y) by go_zside
+            | rewrite (lor_add_low 16 x y) by go_zside | rewrite (lor_add_low' 16 x y) by go_zside
+            | rewrite (lor_add_low 24 x y) by go_zside | rewrite (lor_add_low' 24 x y) by go_zside
+            | rewrite (lor_add_low 32 x y) by go_zside | rewrite (lor_add_low' 32 x y) by go_zside
+            | rewrite (lor_add_low 4 x y) by go_zside | rewrite (lor_add_low' 4 x y) by go_zside
+            | rewrite (lor_add_low 7 x y) by go_zside | rewrite (lor_add_low' 7 x y) by go_zside
+            | rewrite (lor_add_low 12 x y) by go_zside | rewrite (lor_add_low' 12 x y) by go_zside
+            | rewrite (lor_add_low 48 x y) by go_zside | rewrite (lor_add_low' 48 x y) by go_zside ]
+  end.
+
+(* closed powers of two as numerals (after the structural rewrites, for lia) *)
+Ltac go_pow_step :=
+  match goal with
+  | |- context [2 ^ ?k] => go_is_num k; let v := eval vm_compute in (2 ^ k) in change (2 ^ k) with v
+  end.
+
+(* the same in the hypotheses *)
+Ltac go_pow_hyps :=
+  repeat match goal with
+  | H : context [2 ^ ?k] |- _ => go_is_num k; let v := eval vm_compute in (2 ^ k) in change (2 ^ k) with v in H
+  end.
+
+(* a contradiction between boolean tests of integer expressions *)
+Ltac go_absurd :=
+  exfalso; rewrite ?Z.shiftl_mul_pow2, ?Z.shiftr_div_pow2 in * by lia;
+  unfold go_shl, go_shl_s, go_not, wrap in *; go_pow_hyps; go_zsolve.
+
+(* closed subterms *)
+Ltac go_closedP p := lazymatch p with xH => idtac | xO ?q => go_closedP q | xI ?q => go_closedP q end.
+Ltac go_closedZ t :=
+  lazymatch t with
+  | Z0 => idtac | Zpos ?p => go_closedP p | Zneg ?p => go_closedP p
+  | ?a + ?b => go_closedZ a; go_closedZ b
+  | ?a - ?b => go_closedZ a; go_closedZ b
+  | ?a * ?b => go_closedZ a; go_closedZ b
+  | ?a / ?b => go_closedZ a; go_closedZ b
+  | ?a mod ?b => go_closedZ a; go_closedZ b
+  | ?a ^ ?b => go_closedZ a; go_closedZ b
+  | - ?a => go_closedZ a
+  end.
+Ltac go_closed_step :=
+  match goal with
+  | |- context [?x mod ?m] =>
+      go_closedZ x; go_closedZ m;
+      let v := eval vm_compute in (x mod m) in change (x mod m) with v
+  end.
+
+Ltac go_norm :=
+  cbv zeta;
+  unfold go_shl, go_shl_s, go_not, wrap, Z.lnot, Z.pred;
+  rewrite ?Z.shiftl_mul_pow2, ?Z.shiftr_div_pow2 by lia;
+  repeat first [ go_pow_step | go_closed_step | go_mod_small_step | go_mask_step | go_lor_step ].
+
+(* equality of integer expressions *)
+Ltac go_arith := go_norm; go_zsolve.
+
+(* a mod M = b mod M for nested modular sums: push the inner [mod]s out, then compare modulo M *)
+Ltac go_modeq :=
+  cbv zeta; unfold go_not, wrap, Z.lnot, Z.pred;
+  repeat first [ rewrite Zplus_mod_idemp_l | rewrite Zplus_mod_idemp_r
+               | rewrite Zminus_mod_idemp_l | rewrite Zminus_mod_idemp_r | rewrite Z.mod_mod by lia ];
+  first [ reflexivity
+        | apply (mod_congr _ _ _ 0); lia | apply (mod_congr _ _ _ 1); lia | apply (mod_congr _ _ _ (-1)); lia
+        | apply (mod_congr _ _ _ 2); lia | apply (mod_congr _ _ _ (-2)); lia ].
